@@ -4,6 +4,9 @@ SPEC = {
  "props": [
   "props/C06.vo"
  ],
+ "tie": ["tie/StrEquiv.vo"],
+ "gen_items": ["src/bytes.rs:simplify_range_mono", "src/bytes.rs + src/string.rs:try_slice / slice / truncate (checked entry points)"],
+ "tieA_required": True,
  "case_libs": [
   "theories/CasesBytes.vo",
   "theories/CasesCodec.vo"
